@@ -1015,35 +1015,80 @@ def oracle_system(case):
 
 # ----------------------------------------------------------------------------- elastic constants
 
+_VOIGT_PAIR = {3: (1, 2), 4: (0, 2), 5: (0, 1)}
+
+
+def relabelled(C, k):
+    """the 6x6 Voigt matrix with the Cartesian axes renamed by the k-th permutation (entries moved, no arithmetic)"""
+    p = g.PERMS6[k % 6]
+    idx = [p[0], p[1], p[2]] + [6 - p[_VOIGT_PAIR[v][0]] - p[_VOIGT_PAIR[v][1]] for v in (3, 4, 5)]
+    out = np.empty_like(C)
+    for a in range(6):
+        for b in range(6):
+            out[idx[a], idx[b]] = C[a, b]
+    return out
+
+
 def oracle_elastic(case):
     import atomman as am
     fam, u, enc = case['family'], case['unit'], case['enc']
     labels = {'fam_' + fam, 'unit' if u else 'nounit', 'norm_' + case['normalize']}
     differ = cfg_labels(case, labels)
     C = np.array(case['Cij'], dtype=float)
+    C0 = C
     cs = fam if case['normalize'] == 'family' else 'triclinic'
-    what = 'ElasticConstants(%s).model(unit=%r, crystal_system=%s) via %s' % (fam, u, cs if case['normalize'] != 'default' else '<default>', enc)
+    delta = 0.0
+    pt = case.get('perturb')
+    if pt:
+        # almost the symmetry of the family: a symmetric perturbation of 10**-e of the largest entry
+        P = np.zeros((6, 6))
+        P[np.triu_indices(6)] = pt['P']
+        P = P + np.triu(P, 1).T
+        delta = 10.0 ** -int(pt['e']) * float(np.abs(C).max())
+        C = C + delta * P
+        labels.add('near_sym')
+        labels.add('near_sym_fine' if pt['e'] >= 8 else 'near_sym_coarse')
+    if cs == 'triclinic' and case.get('relabel'):
+        Cn = relabelled(C, int(case['relabel']))
+        if not np.array_equal(Cn, C):
+            labels.add('relabelled')
+        C = Cn
+    what = 'ElasticConstants(%s%s).model(unit=%r, crystal_system=%s) via %s' % (
+        fam, ' + %.0e perturbation' % delta if pt else '', u, cs if case['normalize'] != 'default' else '<default>', enc)
+    cm = bool(case.get('cm'))
     try:
         apply_cfg(case['cfgW'])
         fW = factor(u) if u else 1.0
-        ec = am.ElasticConstants(Cij=(C * fW if u else C.copy()))
+        Cw = C * fW if u else C.copy()
+        ec = am.ElasticConstants(Cij=Cw)
+        if cm:
+            Cw[...] = -1.0                                    # the caller re-uses the array it built the object from
         kw = {}
         if u is not None:
             kw['unit'] = u
         if case['normalize'] != 'default':
             kw['crystal_system'] = cs
+        b0 = bits(ec.Cij)
         m = ec.model(**kw)
-        cm = m['elastic-constants']['Cij']
-        require(cm.get('unit') == u, lambda: '%s: stored with unit %r' % (what, cm.get('unit')))
+        require(bits(ec.Cij) == b0, lambda: '%s: the ElasticConstants object was modified by writing its model' % what)
+        cm_ = m['elastic-constants']['Cij']
+        require(cm_.get('unit') == u, lambda: '%s: stored with unit %r' % (what, cm_.get('unit')))
         payload = encode(m, enc, what)
+        if cm:
+            ec.Cij = np.identity(6) * (7.0 * fW)              # ... and the object: the model it holds must not move
+            labels.add('caller_in')
         apply_cfg(case['cfgR'])
         fR = factor(u) if u else 1.0
+        text0 = jdump(payload)
         if case['ctor']:
             ec2 = am.ElasticConstants(model=payload)
         else:
             ec2 = am.ElasticConstants(C11=1.0, C12=0.5, C44=0.3)
             ret = ec2.model(model=payload)
             require(ret is None, lambda: '%s: model(model=...) returned %r' % (what, ret))
+        require(jdump(payload) == text0, lambda: '%s: the model handed in was modified by reading it' % what)
+        if cm and enc == 'dict' and scramble_model(payload):
+            labels.add('caller_out')
         got = np.asarray(ec2.Cij, dtype=float)
         exp = C * fR if u else C
         require(got.shape == (6, 6), lambda: '%s: Cij shape %r' % (what, got.shape))
@@ -1055,10 +1100,15 @@ def oracle_elastic(case):
                 require(rel_ok(got, exp), lambda: '%s: physical value differs, %s' % (what, worst(got, exp)))
         else:
             # normalisation of a tensor that already has the symmetry: averages of equal entries, Hill averages through
-            # one 6x6 inverse (isotropic): <= ~50 cond eps relative to the largest entry, cond <= ~20
-            tol = 1e-12 * np.abs(exp).max()
-            err = np.abs(got - exp).max()
-            require(err <= tol, lambda: '%s: differs by %.3g (tol %.3g), %s' % (what, err, tol, worst(got, exp)))
+            # one 6x6 inverse (isotropic): <= ~50 cond eps relative to the largest entry, cond <= ~20.
+            # Off the symmetry by delta: every normalised entry is an average of entries (sum of the weights' magnitudes <= 3:
+            # C12 = (c12 + c11 - 2 c66) / 2 of the hexagonal and rhombohedral settings, C66 = (C11 - C12) / 2), so the result is
+            # within 3 delta of the symmetric tensor; the Hill average of the isotropic setting goes through the inverse
+            # (observed <= 2.2 delta over 20 000 tensors): 8 delta
+            exp0 = C0 * fR if u else C0
+            tol = 1e-12 * np.abs(exp0).max() + (8.0 if cs == 'isotropic' else 3.0) * delta * (fR if u else 1.0)
+            err = np.abs(got - exp0).max()
+            require(err <= tol, lambda: '%s: differs from the symmetric tensor by %.3g (tol %.3g), %s' % (what, err, tol, worst(got, exp0)))
     finally:
         restore_units()
     if enc != 'dict':
